@@ -653,6 +653,10 @@ static int tunnel_tun(int tun_fd, struct dnsfd *dns_fds)
 	if ((read = read_tun(tun_fd, in, sizeof(in))) <= 0)
 		return 0;
 
+	/* too short to hold the TUN header and an IP header: nobody to send it to */
+	if (read < (int) (4 + sizeof(struct ip)))
+		return 0;
+
 	/* find target ip in packet, in is padded with 4 bytes TUN header */
 	header = (struct ip*) (in + 4);
 	userid = find_user_by_ip(header->ip_dst.s_addr);
@@ -1885,7 +1889,10 @@ handle_full_packet(int tun_fd, struct dnsfd *dns_fds, int userid)
 		struct ip *hdr;
 
 		hdr = (struct ip*) (out + 4);
-		touser = find_user_by_ip(hdr->ip_dst.s_addr);
+		if (outlen >= 4 + sizeof(struct ip))
+			touser = find_user_by_ip(hdr->ip_dst.s_addr);
+		else
+			touser = -1;	/* no destination address in there */
 
 		if (touser == -1) {
 			/* send the uncompressed packet to tun device */
